@@ -33,7 +33,7 @@ def strategy_(draw, tier):
         p_nf=0.15, p_sec=0.7, exon_len=(12, 80))
     wild = tier == 'thorough' and d.chance(0.4)
     opts = cveval.gen_opts(d, cveval.ALL_ENZYMES if wild else STRICT, alt=False, limits=True,
-        exceptions=(None, 'auto', 'trypsin_exception') if wild else (None,))
+        exceptions=(None, None, 'auto', 'trypsin_exception'))
     flags = d.choice([(True, False), (False, True), (True, True)])
     opts['sect'], opts['w2f'] = flags
     return dict(ref=refd, opts=opts, records=[])
@@ -47,8 +47,6 @@ def tolerated(case):
     o = case['opts']
     if o['rule'] in cveval.PEPSINS:
         return 'CV-pepsin'
-    if enz.resolve_exception(o['rule'], o.get('exception')) == 'trypsin_exception':
-        return 'CV-trypsin-exception'
     return None
 
 
